@@ -1787,10 +1787,18 @@ def normalize_module(tree: ast.Module, modname: str, log: list[str] | None = Non
         # a fully inlined helper is dropped (so that it is not analysed as an anchor-less stray)
         for q, f, c, b in new:
             still_called = False
-            for q2, f2, c2, b2 in fns:
+            keys_f = [k for k, v in helpers.items() if v[0] is f]
+            own = {id(x) for x in ast.walk(f)}
+            # referenced anywhere else in the module (function bodies, class-level declarations such as `loading_fn=_helper`, registries)?
+            for n in ast.walk(tree):
+                if id(n) in own:
+                    continue
+                if isinstance(n, (ast.Name, ast.Attribute)) and isinstance(getattr(n, "ctx", None), ast.Load) and _dotted(n) in keys_f:
+                    still_called = True
+                    break
+            for q2, f2, c2, b2 in ([] if still_called else fns):
                 if f2 is f:
                     continue
-                keys_f = [k for k, v in helpers.items() if v[0] is f]
                 for n in ast.walk(f2):
                     if isinstance(n, ast.Call) and _dotted(n.func) in keys_f:
                         still_called = True
